@@ -70,7 +70,7 @@ def cases(tier, seed):
                    outcome=rnd.choice(['success', 'success', 'warning', 'failure', 'raise']),
                    size=rnd.choice([0, 10, 100, 900, 4000]), fault=fault, align=rnd.random() < 0.35,
                    mixed_ts=nclients > 1 and rnd.random() < 0.6,
-                   seed=seed * 100003 + i)
+                   srv_uses=rnd.random() < 0.3, seed=seed * 100003 + i)
 
 
 def make_ds(rnd, uid_, sop, size):
@@ -192,6 +192,10 @@ def run_case(case):
             rsp.status = int(st)
             asce.send(rsp, ctx.id)
         store_mem.sop_classes = [CT, MR]
+        if case.get('srv_uses') and hasattr(srv, 'add_scu'):
+            # the storing entity is also a storage USER (a router, a C-MOVE provider) and was
+            # told so first
+            srv.add_scu(sopclass.storage_scu, [CT, MR])
         srv.add_scp(store_mem if case['recv'] == 'mem' else store_files)
         world.serve_ae(srv, ADDR)
         results = []         # per store: dict(uid, bytes, status or exc, acked)
